@@ -111,7 +111,17 @@ fn gen_case(seed: u64, i: u64, corpus: &Corpus) -> (String, String, Project, Str
     p.modules.extend(corpus.std.iter().cloned());
     return ("corpus".into(), "tests.AllTests".into(), p, "tests.AllTests".into());
   }
+  if let Some((n, t)) = vcore::corpus::regressions().get((i - 1) as usize) {
+    let mut p = Project::default();
+    p.modules.push(("Main".into(), t.clone()));
+    return ("regression".into(), n.clone(), p.with_std(), "Main".into());
+  }
   let pseed = seed.wrapping_mul(1_000_003).wrapping_add(i);
+  if i % 3 == 0 {
+    // counted-loop family aimed at the loop optimizer; wrap-around is deterministic at MIR level
+    let g = vcore::loopgen::generate(pseed, i % 2 == 0);
+    return ("loop-family".into(), format!("loopgen seed {pseed} ({} loops, {} entered)", g.loops, g.loops_entered), g.project.with_std(), g.entry);
+  }
   let mut cfg = GenConfig::default_for(pseed);
   if rng.chance(2, 3) {
     cfg.loop_heavy = true;
@@ -147,7 +157,22 @@ fn judge(base: &RunOut, out: &Result<RunOut, String>, vname: &str) -> Option<(St
       if same(&base.trace, &o.trace) {
         return None;
       }
-      let class = diffexec::diff_class(&base.trace, &o.trace);
+      // temporaries are numbered per compilation: keep them out of the signature
+      let class = {
+        let c = diffexec::diff_class(&base.trace, &o.trace);
+        let mut out = String::new();
+        let mut it = c.chars().peekable();
+        while let Some(ch) = it.next() {
+          out.push(ch);
+          if ch == 't' && out.ends_with("_t") && it.peek().map(|d| d.is_ascii_digit()).unwrap_or(false) {
+            while it.peek().map(|d| d.is_ascii_digit()).unwrap_or(false) {
+              it.next();
+            }
+            out.push('#');
+          }
+        }
+        out
+      };
       Some((format!("behaviour-differs:{class}"), format!("{vname}: {}", diffexec::describe_diff("the unoptimized MIR", &base.trace, "the optimized MIR", &o.trace))))
     }
   }
@@ -212,7 +237,20 @@ fn worker(ctx: WorkerCtx) {
               let mut culprit = String::new();
               if uses_loop {
                 use samlang_optimization::verif as hook;
+                // narrowest first: only the guard operator of the eliminated loop is corrected
+                {
+                  hook::set_loop_guard_operator_corrected(true);
+                  let step_cap = base.steps.saturating_mul(200).saturating_add(2_000_000);
+                  let again = run_variant(&project, &entry, var, step_cap, false);
+                  hook::set_loop_guard_operator_corrected(false);
+                  if judge(&base, &again, &var.name()).is_none() {
+                    culprit = "[guard-operator-of-eliminated-induction-variable]".into();
+                  }
+                }
                 for (mask, name) in [(hook::LOOP_INDUCTION_VARIABLE_ELIMINATION, "induction-variable-elimination"), (hook::LOOP_ALGEBRAIC_OPTIMIZATION, "algebraic-optimization"), (hook::LOOP_INDUCTION_VARIABLE_ELIMINATION | hook::LOOP_ALGEBRAIC_OPTIMIZATION, "induction-variable-elimination+algebraic-optimization")] {
+                  if !culprit.is_empty() {
+                    break;
+                  }
                   hook::set_disabled_loop_subpasses(mask);
                   let step_cap = base.steps.saturating_mul(200).saturating_add(2_000_000);
                   let again = run_variant(&project, &entry, var, step_cap, false);
@@ -228,7 +266,7 @@ fn worker(ctx: WorkerCtx) {
               }
               let vname = match var {
                 // with an attributed loop sub-pass the other enabled flags do not matter
-                Variant::Config(_) if !culprit.is_empty() => "loop".to_string(),
+                Variant::Config(_) | Variant::Pass(_) if !culprit.is_empty() => "loop".to_string(),
                 _ => var.name(),
               };
               let full_sig = format!("{}:{}{}", sig, vname, culprit);
@@ -251,6 +289,24 @@ fn worker(ctx: WorkerCtx) {
                   }
                 })
               };
+              // the elimination is known to assume that m * i + c never wraps (known finding); tell
+              // that situation apart from any other defect of the sub-pass: on the minimised program,
+              // did either run perform a wrapping 32-bit operation?
+              let mut full_sig = full_sig;
+              let mut what = what.clone();
+              if culprit == "[induction-variable-elimination]" {
+                let pp = min.clone().with_std();
+                let wraps = match run_variant(&pp, &entry, &Variant::Unoptimized, budget, false) {
+                  Ok(b) => {
+                    let o = run_variant(&pp, &entry, var, b.steps.saturating_mul(200).saturating_add(2_000_000), false);
+                    b.trace.ub.overflow || o.map(|o| o.trace.ub.overflow).unwrap_or(false)
+                  }
+                  Err(_) => false,
+                };
+                let q = if wraps { "with-32-bit-wrap-around" } else { "without-any-wrap-around" };
+                full_sig = full_sig.replace("[induction-variable-elimination]", &format!("[induction-variable-elimination:{q}]"));
+                what = format!("{what} ({q} in the minimised program)");
+              }
               fails.push(json!({"sig": full_sig, "what": format!("{what}; failing variants: {:?}", failing.iter().map(|f| f.0.name()).collect::<Vec<_>>()), "replay": format!("# variant {} (entry {entry})\n{}", var.name(), diffexec::render_project(&min))}));
             }
           }
@@ -305,6 +361,14 @@ fn main() {
     };
     let j = check(&user);
     println!("variant {}: {:?}", variant.name(), j);
+    if std::env::var("VERIF_DUMP_MIR").is_ok() {
+      // the optimized MIR of the user's functions, for diagnosis
+      if let Ok(o) = run_variant(&user.clone().with_std(), &entry, &variant, 1000, true) {
+        for block in o.printed.split("\n\n").filter(|b| b.contains("_Main_") || b.contains(&entry.replace('.', "_"))) {
+          println!("{block}\n");
+        }
+      }
+    }
     if args[p] == "--minimise" {
       if let Some((want, _)) = j.clone() {
         let min = diffexec::minimise(&user, 4000, &mut |p| p.modules.iter().any(|(n, _)| *n == entry) && check(p).map(|(s, _)| s == want).unwrap_or(false));
